@@ -141,6 +141,12 @@ fn main() {
                 }
             } }
         }
+        "probe-c12c" => {
+            for cache in [false, true] {
+                let r = rt.block_on(akd::vx_export::c12_overtaken_at_commit::<akd_core::WhatsAppV1Configuration>(cache));
+                match r { Ok(o) => println!("cache={cache} p1={:?} p2={:?} final={} audits_ok={} a_ok={} b_ok={}", o.p1.map(|x| x.0), o.p2.map(|x| x.0), o.final_epoch, o.audits_ok, o.a_ok, o.b_ok), Err(e) => println!("err {e}") }
+            }
+        }
         "probe-c12b" => {
             for cache in [false, true] {
                 let r = rt.block_on(akd::vx_export::c12_overtaken_on_clone::<akd_core::WhatsAppV1Configuration>(cache));
